@@ -948,3 +948,42 @@ pub(crate) mod c11 {
     include!(concat!(env!("VERIF_HARNESS_DIR"), "/c11_h.rs"));
 }
 
+
+// =================================================================== C08 id-management calls are total
+#[kani::proof]
+#[kani::unwind(7)]
+fn st_id_calls_total() {
+    let mut c = CC::new(Version::V3_1_1);
+    let a: u16 = kani::any();
+    let b: u16 = kani::any();
+    kani::assume(a != 0 && b != 0 && a != b);
+    c.pid_man.register_id(a).unwrap();
+    c.pid_man.register_id(b).unwrap();
+    let q: u16 = kani::any();
+    let op: u8 = kani::any();
+    kani::assume(op <= 2);
+    kani::cover!(q == 0, "identifier 0");
+    kani::cover!(q == u16::MAX, "identifier max");
+    if op == 0 {
+        let used = q == a || q == b;
+        let ev = c.release_packet_id(q);
+        assert!(ev.len() == used as usize, "[C08] a release is announced exactly when an in-use identifier becomes free");
+        if used {
+            assert!(is_released(&sm(&ev, 0), q) && !c.pid_man.is_used_id(q), "[C08] released identifier announced once");
+        }
+        let ev2 = c.release_packet_id(q);
+        assert!(ev2.len() == 0, "[C08] a free identifier is never announced as released (no double release)");
+        core::mem::forget(ev);
+        core::mem::forget(ev2);
+    } else if op == 1 {
+        let r = c.register_packet_id(q);
+        assert!(r.is_ok() == (q != 0 && q != a && q != b), "[C08] register refuses identifiers in use and 0");
+    } else {
+        let r = c.acquire_packet_id();
+        match r {
+            Ok(id) => assert!(id != 0 && id != a && id != b && c.pid_man.is_used_id(id), "[C08] acquire returns a fresh identifier"),
+            Err(_) => assert!(false, "[C08] identifiers are available"),
+        }
+    }
+    core::mem::forget(c);
+}
